@@ -106,3 +106,11 @@ fn main() {
     }
     println!("{:.2} {} {}", total, apply(|v| v * 3, 7), counter.counts.len());
 }
+
+// dangling commas before a closer
+fn trailing_commas() {
+    foo(alpha, beta, gamma,);
+    let t = (one, two, three,);
+    let a = [1, 2, 3,];
+    bar(Point { x: 1, y: 2, }, [p, q,],);
+}
